@@ -32,6 +32,9 @@ STATUS_FUNCTIONS: Dict[str, Callable[[Tuple[int, ...]], int]] = {
     'any_error_500': lambda codes: 500 if any(codes) else 200,
     'first_code': lambda codes: 200 if not codes or codes[0] == 0 else (404 if codes[0] == -32601 else 400),
     'all_errors_422': lambda codes: 422 if codes and all(codes) else 200,
+    # functions that are only defined for the codes of an actual reply (an empty tuple never reaches them)
+    'multi_207': lambda codes: 200 if len(codes) == 1 else 207,
+    'strict_first': lambda codes: 200 if codes[0] == 0 else 400,
 }
 
 
@@ -94,7 +97,8 @@ class FlaskHop:
     name = 'flask'
     has_status_fn = True
 
-    def __init__(self, w: World, path: str, sub: Optional[str], status_fn: str, dispatcher_kwargs: Dict[str, Any]):
+    def __init__(self, w: World, path: str, sub: Optional[str], status_fn: str, dispatcher_kwargs: Dict[str, Any],
+                 blueprint_prefix: Optional[str] = None):
         self.w = w
         self.node = 'flask'
         self.log: Any = _Log()
@@ -114,15 +118,22 @@ class FlaskHop:
             d = self.rpc.add_endpoint(sub, error_handlers={}, **dispatcher_kwargs)
             d.add_methods(self.service.registry())
             _wrap_dispatch(w, d, self.node, self.log, 'sub')
-        self.rpc.init_app(self.app)
+        if blueprint_prefix:
+            # the README layout: the extension is initialised on a blueprint that is mounted under a URL prefix
+            bp = flask.Blueprint('pjsim_bp', 'pjsim_flask', url_prefix=blueprint_prefix)
+            self.rpc.init_app(bp)
+            self.app.register_blueprint(bp)
+        else:
+            self.rpc.init_app(self.app)
         self.other.init_app(self.app)
+        self.url_prefix = blueprint_prefix or ''
         self.client = self.app.test_client()
 
     def post(self, url: str, body: bytes, content_type: Optional[str]) -> HopResult:
         res = HopResult()
         kw: Dict[str, Any] = {'content_type': content_type} if content_type is not None else {}
         try:
-            r = self.client.post(url, data=body, **kw)
+            r = self.client.post(self.url_prefix + url, data=body, **kw)
             res.status, res.ctype, res.body = r.status_code, r.headers.get('Content-Type'), r.get_data()
         except Exception as e:  # noqa: BLE001
             res.raised = e
